@@ -271,40 +271,25 @@ def cell_extend_sites(prog, cf):
         row = _sc(cell[2][1], mcaps)
         atoms = set()
         if filt and filt in prog.bodies:
-            ps = _paths(prog, filt)
-            if ps is None:
-                atoms.add(("other", "filter not loop-free"))
+            # the predicate as a boolean function of `is_whitespace(ch)` and `ch == NUL` (helpers decided recursively):
+            # which of the two it requires to be false
+            from .exprs import bool_function as _bf
+
+            def _atom(c):
+                if c[0] == "call" and c[1].endswith("is_whitespace") and c[2]:
+                    return "ws"
+                if c[0] == "bin" and c[1] in ("Eq", "Ne") and (_ic(c[3], 0) or _ic(c[2], 0)):
+                    return "nul" if c[1] == "Eq" else ("not", "nul")
+                return None
+            at, tb = _bf(prog, filt, _atom)
+            if at is None:
+                atoms.add(("other", str(tb)[:60]))
             else:
-                # atoms required on every path that returns true
-                per_path = []
-                for conds, ret in ps:
-                    r = _s(ret)
-                    if r[0] == "const" and str(r[2]) in ("0", "False", "false"):
-                        continue
-                    req = set()
-                    for c, tk in conds:
-                        c = _s(c)
-                        if c[0] == "call" and c[1].endswith("is_whitespace") and tk == 0:
-                            req.add("ws")
-                        elif c[0] == "bin" and c[1] == "Ne" and _ic(c[3], 0) and tk != 0:
-                            req.add("nul")
-                        elif c[0] == "bin" and c[1] == "Eq" and _ic(c[3], 0) and tk == 0:
-                            req.add("nul")
-                        else:
-                            req.add(("other", _es(c)[:50]))
-                    if r[0] != "const":
-                        # the last conjunct is returned as a value
-                        if r[0] == "un" and r[1] == "Not" and _s(r[2])[0] == "call" and _s(r[2])[1].endswith("is_whitespace"):
-                            req.add("ws")
-                        elif r[0] == "bin" and r[1] == "Ne" and _ic(r[3], 0):
-                            req.add("nul")
-                        else:
-                            req.add(("other", _es(r)[:50]))
-                    per_path.append(frozenset(req))
-                if per_path and all(x == per_path[0] for x in per_path):
-                    atoms = set(per_path[0])
-                elif per_path:
-                    atoms = {("other", "the paths of the filter require different things")}
+                want = {"ws": lambda k: not k["ws"], "nul": lambda k: not k["nul"]}
+                if all(tb[k] == all(not v for v in k) for k in tb) and at:
+                    atoms = set(at)
+                else:
+                    atoms = {("other", "keeps a character when %s" % sorted(dict(zip(at, k)) and str(dict(zip(at, k))) for k in tb if tb[k])[:2])}
         out.append({"term": t, "bid": bid, "chars_src": chars[2][0], "col": col, "row": row, "ch": ch, "filter_atoms": atoms, "has_filter": bool(filt)})
     return out
 
@@ -349,3 +334,48 @@ def origin_mentions(prog, q, e, pred, region, root=None, depth=0, _seen=None):
                         if origin_mentions(prog, c, cex.operand(t["args"][z[1] - 1]), pred, region, root, depth + 1, _seen):
                             return True
     return False
+
+
+def blank_guard_atoms(prog, path, bid):
+    """what the guards of block `bid` establish about the character that is inserted there, in terms of the two tests
+    `is_whitespace(ch)` and `ch == NUL`: a list of 'ws' / 'nul' (the test is known to be false) or 'other:<cond>'.  A
+    guard that calls a crate-local boolean helper (`!is_blank(ch)`) is decided through exprs.bool_function: it
+    contributes the tests whose value it fixes."""
+    from .mirlib import expr_str as _es
+    from .exprs import strip as _s, is_const as _ic, bool_function as _bf, subst_params as _sp, simplify as _si
+
+    def _atom(c):
+        if c[0] == "call" and c[1].endswith("is_whitespace") and c[2]:
+            return "ws"
+        if c[0] == "bin" and c[1] in ("Eq", "Ne") and (_ic(c[3], 0) or _ic(c[2], 0)):
+            return "nul" if c[1] == "Eq" else ("not", "nul")
+        return None
+    out = []
+    for c, tk, sw in guards(prog, path, bid):
+        c = _s(c)
+        truth = (tk != 0) if not isinstance(tk, tuple) else (0 in tk[1])
+        neg = False
+        while c[0] == "un" and c[1] == "Not":
+            c, neg = _s(c[2]), not neg
+        if neg:
+            truth = not truth
+        if c[0] == "discr":
+            continue
+        a = _atom(c)
+        if a is not None:
+            if isinstance(a, tuple):
+                a, truth = a[1], not truth
+            out.append(a if not truth else "other:%s must hold" % a)
+            continue
+        if c[0] == "call" and c[1] in prog.bodies and "{closure" not in c[1] and prog.bodies[c[1]].get("crate") == prog.bodies[path].get("crate"):
+            args = c[2]
+            at, tb = _bf(prog, c[1], lambda x: _atom(_s(_si(_sp(x, args)))))
+            if at is not None:
+                sat = [k for k in tb if tb[k] == truth]
+                fixed = [a_ for i_, a_ in enumerate(at) if sat and all(k[i_] == sat[0][i_] for k in sat)]
+                if sat and len(fixed) == len(at) and len(sat) == 1:
+                    for i_, a_ in enumerate(at):
+                        out.append(a_ if not sat[0][i_] else "other:%s must hold" % a_)
+                    continue
+        out.append("other:" + _es(c)[:50])
+    return out
